@@ -14,6 +14,8 @@ SPEC = {
          "quick": {"timeout": 300}, "thorough": {"timeout": 600, "race": True}},
         {"name": "keypairs", "pkg": NT, "kind": "plain", "run": "^TestVerifC07Keypairs$",
          "quick": {"timeout": 300}, "thorough": {"timeout": 300}},
+        {"name": "keypairs-unlucky-rng", "pkg": NT, "kind": "plain", "run": "^TestVerifC07KeypairsUnluckyRNG$",
+         "quick": {"timeout": 300}, "thorough": {"timeout": 300}},
         {"name": "fuzz-decode", "pkg": EL, "kind": "fuzz", "fuzz": "FuzzVerifC07Decode",
          "quick": {"timeout": 300}, "thorough": {"fuzztime": "90s", "timeout": 500}},
     ],
